@@ -15,6 +15,8 @@ pub struct CssData {
     imports: Vec<Import>,
     body: Vec<Item>,
     modules: BTreeMap<String, ScopeRef>,
+    /// An error that happened where it could not be returned.
+    deferred: Option<Invalid>,
 }
 
 impl CssData {
@@ -23,7 +25,16 @@ impl CssData {
             imports: Default::default(),
             body: Default::default(),
             modules: Default::default(),
+            deferred: None,
         }
+    }
+    /// Remember an error from a place that can not return it (i.e. a drop).
+    pub fn defer_error(&mut self, err: Invalid) {
+        self.deferred.get_or_insert(err);
+    }
+    /// Return the first deferred error, if any.
+    pub fn check_deferred(&mut self) -> Result<()> {
+        self.deferred.take().map_or(Ok(()), Err)
     }
     pub fn into_iter(self) -> impl Iterator<Item = Item> {
         self.imports.into_iter().map(Into::into).chain(self.body)
@@ -54,7 +65,9 @@ impl CssData {
         Ok(module)
     }
 
-    pub fn into_buffer(self, format: Format) -> Result<Vec<u8>, Error> {
+    pub fn into_buffer(mut self, format: Format) -> Result<Vec<u8>, Error> {
+        self.check_deferred()
+            .map_err(|e| Error::S(e.to_string()))?;
         let mut buf = CssBuf::new(format);
         for i in &self.imports {
             i.write(&mut buf)?;
